@@ -17,6 +17,7 @@ Race case (JSON):
   wake_late    list of indexes into WAKE_LATE, consumed one per wake-up (cycled)
   prep_tasks   list of durations of track preparation tasks (scripted processor)
   queue_size   None | int      downsample  None | int
+  delay_overrides  None | {message type name: index into DELAYS}  fixed delay for every message of that type
   preempt      None | list of indexes into PREEMPT, consumed one per pre-emption point (Future.done() in a handler), cycled
   quiet        bool
   fault        None | {...}  (see checks/c09)
@@ -249,8 +250,14 @@ def run_race(case, inject=None, after_complete_grace=True, collect_metrics=False
     res.horizon_exceeded = False
     res.blocking = None
 
+    overrides = case.get("delay_overrides") or {}
+
     def delays(kind, sender, target, msg):
-        return delay_cycle.next()
+        d = delay_cycle.next()
+        name = type(msg).__name__
+        if name in overrides:
+            return DELAYS[overrides[name] % len(DELAYS)]
+        return d
 
     rt = actors.SimRuntime(loop, clock, delays=delays, wake_lateness=lambda rec: wake_cycle.next())
     coordinator_ip = "127.0.0.1" if len(load_hosts) == 1 else load_hosts[0]
@@ -483,7 +490,16 @@ def run_full_race(case, fault=None):
     res.progress = Progress()
     res.case = case
     res.fault = fault
-    rt = actors.SimRuntime(loop, clock, delays=lambda *a: delay_cycle.next(), wake_lateness=lambda rec: wake_cycle.next())
+    overrides = case.get("delay_overrides") or {}
+
+    def delays(kind, sender, target, msg):
+        d = delay_cycle.next()
+        name = type(msg).__name__
+        if name in overrides:
+            return DELAYS[overrides[name] % len(DELAYS)]
+        return d
+
+    rt = actors.SimRuntime(loop, clock, delays=delays, wake_lateness=lambda rec: wake_cycle.next())
     coordinator_ip = "127.0.0.1" if len(load_hosts) == 1 else load_hosts[0]
     rt.add_host("coordinator", {"coordinator": True, "ip": coordinator_ip})
     for ip in load_hosts[1:]:
